@@ -530,7 +530,18 @@ func (ex *Exec) typeOfBinder(c *Contract, b Binder) types.Type {
 		}
 		return tv.Type
 	}
-	// types.Eval at package scope cannot see imports of the synthetic file;
+	// types.Eval at package scope cannot see imports of the synthetic file: evaluate inside that file
+	for i, f := range pk.Syntax {
+		if strings.HasSuffix(pk.CompiledGoFiles[i], "zz_govc_synth_verif.go") {
+			tv, err := types.Eval(pk.Fset, pk.Types, f.Name.End(), strings.TrimPrefix(b.Type, "..."))
+			if err == nil && tv.Type != nil {
+				if strings.HasPrefix(b.Type, "...") {
+					return types.NewSlice(tv.Type)
+				}
+				return tv.Type
+			}
+		}
+	}
 	// fall back to searching a clause function's signature
 	allCls := [][]*Clause{c.Requires, c.Ensures, c.Assigns, c.Lets}
 	for _, lc := range c.Loops {
@@ -773,8 +784,8 @@ func (ex *Exec) applyContract(st *State, c *ssa.Call, con0 *Contract, bindings [
 			if len(bindings) != len(con.Captures) {
 				ex.abort("STALE-CONTRACT: closure %s captures %d variables, contract declares %d", con.Name, len(bindings), len(con.Captures))
 			}
-			for k, b := range con.Captures {
-				l := ex.locOf(st, bindings[k])
+			for _, b := range con.Captures {
+				l := ex.locOf(st, bindings[ex.captureIndex(con, nil, b.Name)])
 				e.vars[b.Name] = BVal{Cell: &l}
 			}
 		}
@@ -1163,8 +1174,8 @@ func (ex *Exec) closureEnv(st *State, fc *Contract, bindings []ssa.Value, base *
 	if len(fc.Captures) != len(bindings) {
 		ex.abort("STALE-CONTRACT: closure %s captures %d variables, contract declares %d", fc.Name, len(bindings), len(fc.Captures))
 	}
-	for k, b := range fc.Captures {
-		l := ex.locOf(st, bindings[k])
+	for _, b := range fc.Captures {
+		l := ex.locOf(st, bindings[ex.captureIndex(fc, nil, b.Name)])
 		fe.vars[b.Name] = BVal{Cell: &l}
 	}
 	return fe
